@@ -6,7 +6,7 @@
      internal/cache/mem.go        MemoryCache.Store (time.Until, Set / SetIfAbsent), MemoryCache.Get
      otter v1.2.0                 getTTL / getExpiration (TTL rounded up to whole seconds, uint32),
                                   node.HasExpired (expiration <= unixtime.Now()), GetNode (expired => miss + delete task,
-                                  which does NOT remove the node from the hash table), cleanup (removes expired nodes),
+                                  which does NOT cp_remove the node from the hash table), cleanup (removes expired nodes),
                                   hashtable set(onlyIfAbsent) (refuses whenever a node with the key is *present*,
                                   expired or not), the 1 s ticker clock internal/unixtime
      app/router/router.go         handleReq / doPrefetch: which branches reach cache.Store
@@ -127,19 +127,19 @@ Record cp_state := mkState { st_clk : N; st_map : list (key * cp_entry) }.
 
 Definition init_state (clk : N) : cp_state := mkState clk [].
 
-Fixpoint find (k : key) (m : list (key * cp_entry)) : option cp_entry :=
+Fixpoint cp_find (k : key) (m : list (key * cp_entry)) : option cp_entry :=
   match m with
   | [] => None
-  | (k', e) :: m' => if (k =? k')%N then Some e else find k m'
+  | (k', e) :: m' => if (k =? k')%N then Some e else cp_find k m'
   end.
 
-Fixpoint remove (k : key) (m : list (key * cp_entry)) : list (key * cp_entry) :=
+Fixpoint cp_remove (k : key) (m : list (key * cp_entry)) : list (key * cp_entry) :=
   match m with
   | [] => []
-  | (k', e) :: m' => if (k =? k')%N then remove k m' else (k', e) :: remove k m'
+  | (k', e) :: m' => if (k =? k')%N then cp_remove k m' else (k', e) :: cp_remove k m'
   end.
 
-Definition put (k : key) (e : cp_entry) (m : list (key * cp_entry)) : list (key * cp_entry) := (k, e) :: remove k m.
+Definition put (k : key) (e : cp_entry) (m : list (key * cp_entry)) : list (key * cp_entry) := (k, e) :: cp_remove k m.
 
 (* what one cp_step shows to the caller / observer *)
 Inductive out :=
@@ -156,7 +156,7 @@ Inductive out :=
 Definition mem_store (st : cp_state) (k : key) (stored expire until_now : Z) (v : msg) (setNX : bool) : cp_state * bool :=
   let e := mkEntry stored expire v setNX (otter_expiration (st_clk st) (expire - until_now)) in
   if setNX then
-    match find k (st_map st) with
+    match cp_find k (st_map st) with
     | Some _ => (st, false)
     | None => (mkState (st_clk st) (put k e (st_map st)), true)
     end
@@ -179,7 +179,7 @@ Definition cachectl_store (maximumTtl : Z) (st : cp_state) (t eps : Z) (k : key)
 
 (* cacheCtl.Get (memory backend) at wall time [t] *)
 Definition cachectl_get (st : cp_state) (t : Z) (k : key) : cp_state * out :=
-  match find k (st_map st) with
+  match cp_find k (st_map st) with
   | None => (st, OMiss)
   | Some e =>
     if has_expired (st_clk st) e
@@ -202,11 +202,11 @@ Definition cp_step (maximumTtl : Z) (st : cp_state) (ev : event) : cp_state * ou
   | EvStore t eps k resp packok => cachectl_store maximumTtl st t eps k resp packok
   | EvGet t k => cachectl_get st t k
   | EvCollect k =>
-      match find k (st_map st) with
-      | Some e => if has_expired (st_clk st) e then (mkState (st_clk st) (remove k (st_map st)), OEvicted) else (st, OTick)
+      match cp_find k (st_map st) with
+      | Some e => if has_expired (st_clk st) e then (mkState (st_clk st) (cp_remove k (st_map st)), OEvicted) else (st, OTick)
       | None => (st, OTick)
       end
-  | EvEvict k => (mkState (st_clk st) (remove k (st_map st)), OEvicted)
+  | EvEvict k => (mkState (st_clk st) (cp_remove k (st_map st)), OEvicted)
   end.
 
 Fixpoint cp_run (maximumTtl : Z) (st : cp_state) (evs : list event) : cp_state * list out :=
@@ -313,7 +313,7 @@ Fixpoint steps_sat (P : cp_state -> event -> cp_state -> out -> Prop) (mx : Z) (
 Definition neg_keeps (st : cp_state) (ev : event) (st1 : cp_state) (o : out) : Prop :=
   match ev with
   | EvStore t eps k (Some m) pk =>
-      negative m = true -> forall e, find k (st_map st) = Some e ->
+      negative m = true -> forall e, cp_find k (st_map st) = Some e ->
         st1 = st /\ (o = OSkipped \/ exists L, o = OKept L)
   | _ => True
   end.
